@@ -99,7 +99,7 @@ function makeEnv() {
   const bound = { d1: sent('d1'), dfn: function dfn() { return 'dfn'; }, mkd: () => sent('mkd'), uo: { inheritAttrs: false }, v: 1 };
   return { bound, globals: {} };
 }
-const PRELUDE = "import { defineComponent, SetupContext } from 'vue';\nconst { d1, dfn, mkd, uo } = __env.bound;\n";
+const PRELUDE = "import { defineComponent, SetupContext } from 'vue';\nimport type { SlotsType } from 'vue';\nconst { d1, dfn, mkd, uo } = __env.bound;\n";
 
 // runs the module; returns {load, calls: [{who, args}], out}
 function run(evalJs, env) {
